@@ -274,6 +274,9 @@ func nativeGlobal(ex *Exec, name string, t types.Type) (Value, bool) {
 		return mkBytes(net.IPv4zero), true
 	case "net.IPv6unspecified", "net.IPv6zero":
 		return mkBytes(net.IPv6zero), true
+	case "crypto/rand.Reader":
+		rt := ex.eng.namedType("crypto/rand", "reader")
+		return IfaceV{T: types.NewPointer(rt), V: PtrV{N: ex.newNode(rt)}}, true
 	case "os.Args":
 		return ex.zero(t), true
 	case "io.Discard":
